@@ -648,6 +648,37 @@ def cmdCtxSplit : P String := do
   if left > 0 then return s!"DIFF C17 goroutines-left-behind count={left} {feats}"
   return s!"OK {feats}"
 
-def table : List (String × P String) := [("act", cmdAct), ("atoi", cmdAtoi), ("addr", cmdAddr), ("reg", cmdReg), ("client", cmdClient), ("e2e", cmdE2e), ("abort", cmdAbort), ("connr", cmdConnR), ("jsonself", cmdJsonSelf), ("upgrade", cmdUpgrade), ("bigframes", cmdBigFrames), ("ctxsplit", cmdCtxSplit)]
+/-! ## struct decoding: `jsonstruct call|reply <doc> | <ok> <string field> <hasparams> <params> <b1> <b2> <b3>` -/
+
+def cmdJsonStruct : P String := do
+  let kind ← tok
+  let doc ← bytes
+  expect "|"
+  let ok ← bool
+  let sfield ← bytes
+  let hasParams ← bool
+  let params ← bytes
+  let b1 ← bool; let b2 ← bool; let b3 ← bool
+  let pv : Option JVal := if hasParams then parseDoc params else none
+  let feats := s!"nt={if doc.length ≥ 12 then 1 else 0} kind={kind} ok={ok}"
+  if kind == "call" then
+    match decodeCall doc with
+    | none => if ok then return s!"DIFF JSON struct-model-rejects-what-unmarshal-accepts {feats}" else return s!"OK {feats}"
+    | some c =>
+      -- Go keeps filling fields after a type error; the call is rejected either way, only acceptance is compared then
+      if !ok then return s!"DIFF JSON struct-model-accepts-what-unmarshal-rejects {feats}"
+      if !(Varlink.sanitize c.method == sfield && optJValBeq (c.params.map JVal.sanitize) pv && c.more == b1 && c.oneway == b2 && c.upgrade == b3) then
+        return s!"DIFF JSON struct-call-fields-differ {feats}"
+      return s!"OK {feats}"
+  else
+    match decodeReply doc with
+    | none => if ok then return s!"DIFF JSON struct-model-rejects-what-unmarshal-accepts {feats}" else return s!"OK {feats}"
+    | some r =>
+      if !ok then return s!"DIFF JSON struct-model-accepts-what-unmarshal-rejects {feats}"
+      if !(Varlink.sanitize r.error == sfield && optJValBeq (r.params.map JVal.sanitize) pv && r.continues == b1) then
+        return s!"DIFF JSON struct-reply-fields-differ {feats}"
+      return s!"OK {feats}"
+
+def table : List (String × P String) := [("act", cmdAct), ("atoi", cmdAtoi), ("addr", cmdAddr), ("reg", cmdReg), ("client", cmdClient), ("e2e", cmdE2e), ("abort", cmdAbort), ("connr", cmdConnR), ("jsonself", cmdJsonSelf), ("upgrade", cmdUpgrade), ("bigframes", cmdBigFrames), ("ctxsplit", cmdCtxSplit), ("jsonstruct", cmdJsonStruct)]
 
 end Driver.Misc
